@@ -691,6 +691,131 @@ fn do_in_parallel(rep: &mut Report, n: usize, threads: usize, fail_at: Option<us
     }
 }
 
+/// the bounded channels really bound the work in flight: with a slow reducer (resp. slow workers)
+/// never more than `2*threads + 1` results are consumed-but-not-fed (result channel of capacity
+/// `threads` + one result per worker + the one being fed), and never more than `2*threads + 1`
+/// items are pulled from the input but not yet handed to `consume`.
+struct SlowReducer {
+    fed: Vec<usize>,
+    fail_at: Option<usize>,
+    sleep_us: u64,
+    consumed: Arc<AtomicUsize>,
+    max_backlog: Arc<AtomicUsize>,
+}
+
+impl parallel::Reduce for SlowReducer {
+    type Input = usize;
+    type FeedProduce = usize;
+    type Output = Vec<usize>;
+    type Error = String;
+    fn feed(&mut self, item: usize) -> Result<usize, String> {
+        // `fed` only changes in this thread: the difference is exact at this instant
+        let backlog = self.consumed.load(Ordering::SeqCst) - self.fed.len();
+        self.max_backlog.fetch_max(backlog, Ordering::SeqCst);
+        if self.sleep_us > 0 {
+            std::thread::sleep(std::time::Duration::from_micros(self.sleep_us));
+        }
+        if self.fail_at == Some(self.fed.len()) {
+            return Err("reducer".into());
+        }
+        self.fed.push(item);
+        Ok(item)
+    }
+    fn finalize(self) -> Result<Vec<usize>, String> {
+        Ok(self.fed)
+    }
+}
+
+fn do_in_parallel_bounded(rep: &mut Report, n: usize, threads: usize, reducer_us: u64, worker_us: u64, fail_at: Option<usize>) {
+    let desc = format!("in_parallel-bounded n={n} threads={threads} reducer_us={reducer_us} worker_us={worker_us} reducer_fails_at={fail_at:?}");
+    rep.oracle_only(&desc, true);
+    rep.oracle_checked();
+    rep.bucket("in_parallel:bounded-channels");
+    let consumed = Arc::new(AtomicUsize::new(0));
+    let pulled = Arc::new(AtomicUsize::new(0));
+    let max_backlog = Arc::new(AtomicUsize::new(0));
+    let max_ahead = Arc::new(AtomicUsize::new(0));
+    let counts: Arc<Vec<AtomicUsize>> = Arc::new((0..n).map(|_| AtomicUsize::new(0)).collect());
+    let (c2, p2, mb2, ma2, counts2) = (consumed.clone(), pulled.clone(), max_backlog.clone(), max_ahead.clone(), counts.clone());
+    let res = with_deadline(std::time::Duration::from_secs(30), move || {
+        let input = {
+            let (p, c, ma) = (p2.clone(), c2.clone(), ma2.clone());
+            (0..n).map(move |i| {
+                // `pulled` only changes in this (the feeder) thread: exact at this instant
+                let ahead = p.load(Ordering::SeqCst) - c.load(Ordering::SeqCst).min(p.load(Ordering::SeqCst));
+                ma.fetch_max(ahead, Ordering::SeqCst);
+                p.fetch_add(1, Ordering::SeqCst);
+                i
+            })
+        };
+        let consume = {
+            let (c, counts) = (c2.clone(), counts2.clone());
+            move |item: usize, _s: &mut usize| {
+                c.fetch_add(1, Ordering::SeqCst);
+                counts[item].fetch_add(1, Ordering::SeqCst);
+                if worker_us > 0 {
+                    std::thread::sleep(std::time::Duration::from_micros(worker_us));
+                }
+                item
+            }
+        };
+        parallel::in_parallel(
+            input,
+            Some(threads),
+            |t| t,
+            consume,
+            SlowReducer { fed: Vec::new(), fail_at, sleep_us: reducer_us, consumed: c2.clone(), max_backlog: mb2.clone() },
+        )
+    });
+    let bound = 2 * threads + 1;
+    let key = desc.clone();
+    match res {
+        None => report_fail(rep, &key, "did not terminate within 30 s", &format!("# {desc}")),
+        Some(Err(_)) => report_fail(rep, &key, "panicked", &format!("# {desc}")),
+        Some(Ok(r)) => {
+            let backlog = max_backlog.load(Ordering::SeqCst);
+            let ahead = max_ahead.load(Ordering::SeqCst);
+            let total: usize = consumed.load(Ordering::SeqCst);
+            if backlog >= threads + 1 {
+                rep.bucket("in_parallel:result-channel-seen-full");
+            }
+            if ahead >= threads + 1 {
+                rep.bucket("in_parallel:input-channel-seen-full");
+            }
+            let mut problem = None;
+            if backlog > bound {
+                problem = Some(format!("{backlog} results were consumed but not yet fed at one moment (bound {bound}): the result channel does not bound the work in flight"));
+            } else if ahead > bound {
+                problem = Some(format!("{ahead} items were pulled from the input but not yet consumed at one moment (bound {bound}): the input channel does not bound the work in flight"));
+            } else if let Some(i) = counts.iter().position(|c| c.load(Ordering::SeqCst) > 1) {
+                problem = Some(format!("item {i} consumed more than once"));
+            }
+            match (&r, fail_at) {
+                (Ok(fed), None) => {
+                    let mut got = fed.clone();
+                    got.sort();
+                    if got != (0..n).collect::<Vec<_>>() {
+                        problem = Some("the reducer was not fed every result exactly once".into());
+                    }
+                }
+                (Ok(_), Some(k)) if k < n => problem = Some("the reducer failed but the result is Ok".into()),
+                (Err(_), Some(k)) => {
+                    // k fed + the one that failed + what channels and workers hold + one more per worker
+                    let b = k + 1 + 3 * threads + 1;
+                    if total > b {
+                        problem = Some(format!("the reducer failed at feed #{k} but {total} items were consumed (bound {b})"));
+                    }
+                }
+                (Err(_), None) => problem = Some("Err without a failing reducer".into()),
+                _ => {}
+            }
+            if let Some(p) = problem {
+                report_fail(rep, &key, &p, &format!("# {desc}"));
+            }
+        }
+    }
+}
+
 struct LiveGuard(Arc<AtomicIsize>);
 impl Drop for LiveGuard {
     fn drop(&mut self) {
@@ -756,6 +881,14 @@ fn do_stepwise_drop(rep: &mut Report, n: usize, threads: usize, take: usize) -> 
                 report_fail(rep, &desc, &format!("only {} of {} results arrived", got.len(), take.min(n)), &format!("# {desc}"));
             } else if live_after != 0 {
                 report_fail(rep, &desc, &format!("{live_after} worker threads still alive after drop"), &format!("stepwise {n} {threads} {take}"));
+            } else if consumed.load(Ordering::SeqCst) > take + 3 * threads + 1 {
+                // taken + result channel + one result per worker + one more item per worker after the drop
+                report_fail(
+                    rep,
+                    &desc,
+                    &format!("{} items were consumed although only {take} results were taken before the drop (bound {})", consumed.load(Ordering::SeqCst), take + 3 * threads + 1),
+                    &format!("stepwise {n} {threads} {take}"),
+                );
             }
         }
     }
@@ -958,10 +1091,32 @@ fn main() {
         let fail_at = if r.chance(1, 2) { Some(r.usize(n + 1)) } else { None };
         do_in_parallel(&mut rep, n, threads, fail_at, r.chance(1, 3));
     }
+    // bounded channels: slow reducer / slow workers, reducer failing at every position of a small run
+    for threads in [1usize, 2, 4, 7] {
+        do_in_parallel_bounded(&mut rep, 120, threads, 150, 0, None);
+        do_in_parallel_bounded(&mut rep, 120, threads, 0, 150, None);
+    }
+    for k in 0..=if args.thorough { 40usize } else { 16 } {
+        do_in_parallel_bounded(&mut rep, 60, 1 + k % 4, 50, 0, Some(k));
+    }
+    for _ in 0..args.budget(10, 400) {
+        let threads = 1 + r.usize(8);
+        let n = 50 + r.usize(400);
+        let fail_at = if r.chance(1, 2) { Some(r.usize(n)) } else { None };
+        do_in_parallel_bounded(&mut rep, n, threads, r.below(120), r.below(120), fail_at);
+    }
     // dropping before exhaustion with far more items outstanding than the channels hold
     let mut stepwise_ok = true;
     for (n, threads, take) in [(100usize, 1usize, 0usize), (100, 2, 1), (64, 4, 3), (1000, 3, 10), (50, 8, 0), (5, 2, 5), (0, 2, 0)] {
         stepwise_ok = stepwise_ok && do_stepwise_drop(&mut rep, n, threads, take);
+    }
+    // early drop at EVERY position of a small run
+    for threads in [1usize, 2, 4] {
+        for take in 0..=if args.thorough { 40usize } else { 24 } {
+            if stepwise_ok {
+                stepwise_ok = do_stepwise_drop(&mut rep, 40, threads, take);
+            }
+        }
     }
     for _ in 0..args.budget(40, 1_000) {
         let n = r.usize(2_000);
